@@ -53,8 +53,10 @@ def world(h):
 
     def rec(name):
         return Builtin(name, lambda i, a, k, name=name: trace.append((name, tuple(a))))
+    # both account kinds (cash and margin) go through the same Order methods
     ex = Obj(None, {'on_order_execution': rec('exchange.on_order_execution'),
-                    'on_order_cancellation': rec('exchange.on_order_cancellation')}, name='exchange')
+                    'on_order_cancellation': rec('exchange.on_order_cancellation'),
+                    'type': 'futures' if h.branch(h.bool('margin_account')) else 'spot', 'name': 'Sandbox'}, name='exchange')
     pos = Obj(None, {'_on_executed_order': rec('position._on_executed_order')}, name='position')
     ct = Obj(None, {'add_executed_order': rec('completed_trades.add_executed_order')})
     store = Obj(None, {'completed_trades': ct}, name='store')
